@@ -22,7 +22,7 @@ Inductive c13_step :=
 | SStatic (stages : result (list stage_resp))                 (* Stages *)
           (stage_k : list (result stage_resp))                (* Stage{0..3} *)
           (members_k : list (result (list (N * N))))          (* Members{0..3, limit 100} *)
-| STime (now : N) (obs : tobs).
+| STime (nows : list N) (obs : tobs).    (* the same answers at each of these instants *)
 
 (* probes: (address id, Merkle fold oracle) *)
 Inductive c13_case :=
@@ -73,7 +73,8 @@ Fixpoint run_steps (w : wl) (probes : list (N * option N)) (steps : list c13_ste
       list_eqb (result_eqb resp_eqb) (map (q_stage w) ids4) sk &&
       list_eqb (result_eqb (list_eqb pair_eqb)) (map (q_members w) ids4) mk &&
       run_steps w probes r
-  | STime now obs :: r => tobs_eqb (model_tobs w now probes) obs && run_steps w probes r
+  | STime nows obs :: r =>
+      forallb (fun now => tobs_eqb (model_tobs w now probes) obs) nows && run_steps w probes r
   end.
 
 Definition c13_check (c : c13_case) : bool :=
